@@ -5,7 +5,10 @@
 
 package db19
 
-import "github.com/apmckinlay/gsuneido/db19/meta"
+import (
+	"github.com/apmckinlay/gsuneido/db19/meta"
+	"github.com/apmckinlay/gsuneido/db19/stor"
+)
 
 // accessors for external verification harnesses (build tag verif)
 
@@ -29,4 +32,26 @@ func VerifStartEnd(t *UpdateTran) (start, end int) {
 // VerifFailure returns the failure reason of an update transaction ("" if none)
 func VerifFailure(t *UpdateTran) string {
 	return t.ct.failure.Load()
+}
+
+// VerifStateLen is the size of a state record in the database file
+const VerifStateLen = stateLen
+
+// VerifTailSize is the size of the shutdown marker
+const VerifTailSize = tailSize
+
+// VerifStateTime returns the time stored in the state record at off (0 if invalid)
+func VerifStateTime(st *stor.Stor, off uint64) (t int64) {
+	defer func() {
+		if e := recover(); e != nil {
+			t = 0
+		}
+	}()
+	_, _, t = readState(st, off)
+	return t
+}
+
+// VerifAsofOff returns the offset of the state a read transaction was moved to by Asof
+func VerifAsofOff(t *ReadTran) uint64 {
+	return t.off
 }
